@@ -47,6 +47,14 @@ typedef struct { int line; cstr file; cstr function; cstr category; int version;
 static inline QMessageLogContext QMessageLogContext_ctor__cstr_int_cstr_cstr(cstr file, int line, cstr function, cstr category)
 { QMessageLogContext c; c.version = 2; c.line = line; c.file = file; c.function = function; c.category = category; return c; }
 
+/* qMin/qMax/std::min/std::max/qBound/qAbs on the integer types the library uses (pure) */
+#define DEFINE_MINMAX(T, S) \
+static inline T qMin__##S##_##S(T a, T b) { return a < b ? a : b; } static inline T qMax__##S##_##S(T a, T b) { return a < b ? b : a; } \
+static inline T std_min__##S##_##S(T a, T b) { return b < a ? b : a; } static inline T std_max__##S##_##S(T a, T b) { return a < b ? b : a; } \
+static inline T qBound__##S##_##S##_##S(T lo, T v, T hi) { return v < lo ? lo : (hi < v ? hi : v); }
+DEFINE_MINMAX(int, int) DEFINE_MINMAX(long long, longlong) DEFINE_MINMAX(unsigned long, unsignedlong) DEFINE_MINMAX(unsigned int, unsignedint) DEFINE_MINMAX(long, long) DEFINE_MINMAX(unsigned long long, unsignedlonglong)
+static inline int qAbs__int(int a) { __CPROVER_assert(a != (-2147483647 - 1), "qAbs(INT_MIN) overflows"); return a < 0 ? -a : a; }
+
 /* std::reverse_iterator over an abstract list whose const_iterator is {LIST *l; int i;}: the reverse iterator {l, i} has base() index i and
  * designates element i-1 (crbegin: i = n, crend: i = 0).  DEREF_FWD is the unit's dereference model of the forward const_iterator. */
 #define DEFINE_REVERSE_ITERATORS(LIST, ELEM, DEREF_FWD) \
